@@ -179,10 +179,17 @@ func runC13(e *sim.Env) {
 						tb.Strict = false // may legitimately conflict with the set so far
 						if fresh, ok := refreshV2(txn, from.L, nil); ok && tb.CommitV2("confirmed-later", fresh) {
 							e.Probe("set_has_later_confirmed_txn")
+							tb.Mark("set_has_later_confirmed_txn")
 						}
 						tb.Strict = genStrict
 					}
 				}
+			}
+		}
+		if tb.Probed("set_has_later_confirmed_txn") {
+			// children of transactions that will be confirmed on the way
+			for k, n := 0, e.Range(0, 2); k < n; k++ {
+				tb.V2Pay(true)
 			}
 		}
 		set := tb.V2Txns
